@@ -454,5 +454,5 @@ func TestPropExpected(t *testing.T) {
 }
 
 func TestReplay(t *testing.T) {
-	evid.Replay(t, evid.R("matrix", check), evid.R("programs", check), evid.R("backdoor", checkBackdoor), evid.R("surface", checkSurface))
+	evid.Replay(t, evid.R("matrix", check), evid.R("programs", check), evid.R("backdoor", checkBackdoor), evid.R("surface", checkSurface), evid.R("taint", checkTaint))
 }
